@@ -1,7 +1,7 @@
 import QR.Model.QRObject
 import QR.Proofs.Except
 import QR.Proofs.History
-import QR.Proofs.SourceTie
+import QR.Proofs.SourceTieC11
 import QR.Proofs.Pinned
 /-
 C11 - a compile depends only on current data and settings, never on history.  (Invariant proof under construction.)
@@ -205,7 +205,7 @@ theorem C11_history_free_any (ops : List Op) (g0 : Global) (hg : Global.Inv g0) 
 /-- `make` calls best_fit, makeImpl, best_mask_pattern, makeImpl - the calls the state machine composes -/
 theorem C11_source_structure :
     Gen.Code.make_calls = ["self.best_fit", "self.makeImpl", "self.best_mask_pattern", "self.makeImpl"] :=
-  QR.SourceTie.structure_eq.2
+  QR.SourceTie.structure_make
 
 /-- the Python functions this property's model mirrors have, in /repo's current working tree, exactly the normalised
     ASTs the model was written and validated against (fingerprints regenerated by T1 on every run) -/
